@@ -201,7 +201,7 @@ def ensure(wanted, quiet=True):
             with open(nf, "w") as f:
                 f.write(text)
         goals = [binpath(v, n) for v, n in wanted]
-        cmd = ["ninja", "-f", nf, "-j", str(os.cpu_count() or 4)] + goals
+        cmd = ["ninja", "-f", nf, "-j", str(min(os.cpu_count() or 4, 12))] + goals
         p = subprocess.run(cmd, stdout=subprocess.PIPE, stderr=subprocess.STDOUT, text=True)
         if p.returncode != 0:
             sys.stdout.write(p.stdout[-20000:])
